@@ -111,6 +111,11 @@ func TestZZVerifReplay(t *testing.T) {
 		ov[filepath.Join(repoDir, r)] = p
 		return nil
 	})
+	for rel, b := range generatedOverlay() {
+		g := filepath.Join(nb.workDir, "gen_"+strings.ReplaceAll(rel, "/", "_"))
+		os.WriteFile(g, b, 0o644)
+		ov[filepath.Join(repoDir, rel)] = g
+	}
 	ovJSON, _ := json.Marshal(map[string]interface{}{"Replace": ov})
 	ovFile := filepath.Join(nb.workDir, "overlay_"+id+".json")
 	os.WriteFile(ovFile, ovJSON, 0o644)
